@@ -17,6 +17,10 @@ def finding_programs():
                   "fields": [{"name": "t", "ty": PARAM("T"), "attrs": {}}]},
                   {"kind": "struct", "name": "DU", "shape": "named", "attrs": {}, "generics": [], "fields": [{"name": "g", "ty": N("DG", P("u8")), "attrs": {"inline": True}}]}],
                   "probes": [{"ty": N("DU"), "values": []}]}))
+    progs.append(("C03-inlined-default", {"items": [leaf("FL"), {"kind": "struct", "name": "FG", "shape": "named", "attrs": {}, "generics": [{"name": "T", "default": N("FL")}],
+                  "fields": [{"name": "t", "ty": PARAM("T"), "attrs": {}}]},
+                  {"kind": "struct", "name": "FU", "shape": "named", "attrs": {}, "generics": [], "fields": [{"name": "own", "ty": P("u8"), "attrs": {}}, {"name": "g", "ty": N("FG", P("u8")), "attrs": {"flatten": True}}]}],
+                  "probes": [{"ty": N("FU"), "values": []}]}))
     # C03-tagged-newtype-inline
     progs.append(("C03-tagged-newtype-inline", {"items": [leaf("TL"), {"kind": "struct", "name": "TI", "shape": "named", "attrs": {}, "generics": [], "fields": [{"name": "d", "ty": N("TL"), "attrs": {}}]},
                   {"kind": "enum", "name": "TE", "attrs": {"tag": "t", "content": "c"}, "generics": [],
